@@ -320,6 +320,49 @@ def run(P, tier="quick"):
                                "unchecked when %s: an out-of-range port there indexes port_connected[] and the cell maps" %
                                (" / ".join("%s < %s" % (ivar.refname, g.text()) for g in guards), hole[1], hole[2],
                                 ", ".join("%s = %d" % kv for kv in sorted(hole[0].items()))), vloop.line))
+    # DIM-KIND: a local array whose extent is a pure row count (or a pure column count) of the calibration is filled, in a
+    # counted loop that uses the loop counter as the subscript, up to a bound of the same kind.  "rows" / "columns" are
+    # read from the canonical form of both expressions (they end in the vl_m_rows / vl_m_columns / vnaa_*_rows /
+    # vnaa_*_columns members); mixed expressions (MIN/MAX of both, products) take no part.
+    import re as _re
+
+    def _kind(e_):
+        t_ = _cn0.path(e_)
+        r_, c_ = bool(_re.search(r"rows", t_)), bool(_re.search(r"columns", t_))
+        return "R" if (r_ and not c_) else ("C" if (c_ and not r_) else None)
+    vla = {}
+    for v_ in fc.vardecls():
+        dims_ = v_.d.get("_dims") or []
+        if dims_ and hasattr(dims_[0], "k") and dims_[0].k != "ConstSize":
+            vla[v_.get("decl")] = (v_.get("name"), dims_[0])
+    ndk = 0
+    for n in fc.walk():
+        if n.k != "ForStmt" or n.kids[2] is None or n.kids[4] is None:
+            continue
+        c_ = n.kids[2].strip()
+        if c_.k != "BinaryOperator" or c_.op != "<" or c_.kids[0].strip().k != "DeclRefExpr":
+            continue
+        iv_ = c_.kids[0].strip().refdecl
+        for m in n.kids[4].walk():
+            if m.k == "BinaryOperator" and m.op == "=" and m.kids[0].strip().k == "ArraySubscriptExpr":
+                l_ = m.kids[0].strip()
+                b_, i_ = l_.kids[0].strip(), l_.kids[1].strip()
+                if b_.k == "DeclRefExpr" and b_.refdecl in vla and i_.k == "DeclRefExpr" and i_.refdecl == iv_:
+                    ke, kb = _kind(vla[b_.refdecl][1]), _kind(c_.kids[1])
+                    if ke is None or kb is None:
+                        continue
+                    ndk += 1
+                    key = "R31|%s|_vnacal_new_add_common|dim-kind:%s#%d" % (FILE, "rows" if ke == "R" else "columns", ndk)
+                    if ke == kb:
+                        R.ok(key, PROPS | {"C03"})
+                    else:
+                        R.violated(Finding("R31", PROPS | {"C03"}, FILE, "_vnacal_new_add_common", "dim-kind:" + vla[b_.refdecl][0],
+                                           "%s[] has one element per %s (%s) but the loop that fills it runs to a %s count (%s): with a "
+                                           "rectangular calibration it writes past the array or leaves flags unset" %
+                                           (vla[b_.refdecl][0], "row" if ke == "R" else "column", vla[b_.refdecl][1].text()[:40],
+                                            "row" if kb == "R" else "column", c_.kids[1].text()[:40]), m.line))
+    if ndk < 2:
+        raise AnalysisBroken("_vnacal_new_add_common: row/column flag-filling loops not found")
     # MAPPED-INDEX: inside a loop whose counter i has a mapped companion (full = cond ? map[i] - 1 : i), the arrays of
     # the full port grid (those subscripted by some mapped companion) are subscripted by the companion, never by raw i
     mapped = {}          # raw index decl -> [(mapped VarDecl, loop)]
